@@ -13,7 +13,7 @@ Python fragment understood (anything else raises Unsupported, which is reported,
   that are calls (treated as effect-free ONLY when the callee is `self.log_status` or `print`),
   `x is None` / `x is not None`, comparisons `< <= > >= ==`, `+ - // %`, `and/or/not`, `float(x)`
   (identity on the loss value: float32 -> float64 is exact), `jnp.inf / np.inf / math.inf /
-  float("inf")`, int / bool / None constants, `np.min([...])`, `super().__init__(...)`.
+  float("inf")`, int / bool / None constants, module-level integer constants, `np.min([...])`, `super().__init__(...)`.
 Assumed semantics (trusted base): IEEE `<` and `-` on losses are `FV.lt` / `FV.sub`; Python ints are `Nat`
 (counters only ever grow from 0); the model object is an opaque token (`Nat`).
 """
@@ -44,6 +44,9 @@ def dotted(node):
     return None
 
 
+MODULE_CONSTS: dict = {}  # module-level `NAME = <int/float constant>` of the translated file
+
+
 class Exec:
     def __init__(self, params):
         self.params = params
@@ -65,6 +68,8 @@ class Exec:
         if isinstance(n, ast.Name):
             if n.id in env["locals"]:
                 return env["locals"][n.id]
+            if n.id in MODULE_CONSTS:
+                return MODULE_CONSTS[n.id]
             return ("opaque", n.id)
         if isinstance(n, ast.Attribute) and isinstance(n.value, ast.Name) and n.value.id == "self":
             if n.attr in env["fields"]:
@@ -226,6 +231,12 @@ def has_opaque(e):
 def analyse(src: str):
     mod = ast.parse(src)
     classes = {c.name: c for c in mod.body if isinstance(c, ast.ClassDef)}
+    MODULE_CONSTS.clear()
+    for st in mod.body:
+        if isinstance(st, ast.Assign) and len(st.targets) == 1 and isinstance(st.targets[0], ast.Name):
+            v = Exec([]).expr(st.value, {"locals": {}, "fields": {}, "order": []})
+            if v[0] in ("int", "pinf", "ninf", "bool"):
+                MODULE_CONSTS[st.targets[0].id] = v
     out = {}
     for name, c in classes.items():
         meths = {m.name: m for m in c.body if isinstance(m, ast.FunctionDef)}
